@@ -768,7 +768,7 @@ def correspondence(ctx, quick):
     cases = [gen_corr_case(ctx.rng, i) for i in range(n)]
     impls = [run_corr_impl(c) for c in cases]
     ok_idx = [i for i, im in enumerate(impls) if im['err'] is None and all(math.isfinite(v) for v in im['new'])]
-    res = ctx.coq_eval('corr', HEADER, [corr_term(cases[i], impls[i]) for i in ok_idx], shard=max(4, -(-len(ok_idx) // 16)))
+    res = ctx.coq_eval('corr', HEADER, [corr_term(cases[i], impls[i]) for i in ok_idx], shard=max(4, -(-len(ok_idx) // (8 if quick else 16))))
     dis = []
     for i, r in zip(ok_idx, res):
         verdict, dt_ok, tie = r
@@ -790,8 +790,8 @@ def correspondence(ctx, quick):
     return dis
 
 
-RUN_FILES = ['C06/run/BridgeA.v', 'C06/run/GenPropertiesA.v', 'C06/run/BridgeB.v', 'C06/run/GenPropertiesB.v',
-             'C06/run/BridgeC.v', 'C06/run/GenPropertiesC.v']
+RUN_FILES = ['C06/run/BridgeA.v', 'C06/run/GenPropertiesA.v', 'C06/run/BridgeAut.v', 'C06/run/GenPropertiesAut.v',
+             'C06/run/BridgeB.v', 'C06/run/GenPropertiesB.v', 'C06/run/BridgeC.v', 'C06/run/GenPropertiesC.v']
 
 
 def run(ctx):
